@@ -123,7 +123,28 @@ def chk_create(case):
     return sorted(set(bad))
 
 
-CHECKS = {'vec': (chk_vectorise, V + 'vectorisePositions'), 'blur': (chk_blur, V + 'blur'),
+def chk_pts(case):
+    from src.correlation.sequence_generator import SequenceGenerator
+    pos, res, start, end, radius = case
+    try:
+        out = [int(x) for x in SequenceGenerator(res, radius).positionsToSequence(list(pos), start, end)]
+    except Exception as e:
+        return [f'exception:{type(e).__name__}']
+    has = lambda k: any(start + k * res <= p < start + (k + 1) * res for p in pos)
+    bad = []
+    for i, bit in enumerate(out):
+        want = 1 if any(has(j) for j in range(max(0, i - radius), min(len(out), i + radius + 1))) else 0
+        if bit != want:
+            bad.append('bit_set_iff_a_label_lies_in_a_bin_within_the_blur_radius_relative_to_start')
+            break
+    end_eff = end or pos[-1]
+    if any(start <= p <= end_eff and not p < start + len(out) * res for p in pos):
+        bad.append('labels_between_start_and_end_are_covered')
+    return bad
+
+
+CHECKS = {'pts': (chk_pts, 'src/correlation/sequence_generator.py::SequenceGenerator.positionsToSequence'),
+          'vec': (chk_vectorise, V + 'vectorisePositions'), 'blur': (chk_blur, V + 'blur'),
           'trgp': (chk_trgp, OM + 'toRelativeGenomicPositions'), 'sel': (chk_select, PS),
           'create': (chk_create, OM + 'CorrelationResult.createPeaks')}
 
@@ -157,6 +178,13 @@ def all_cases(tier, seed):
         for hs in itertools.product((1, 2, 3, 4), repeat=n):
             for count in (0, 1, 2, 3, 7):
                 cs.append(('create', (hs, count, 3, 10)))
+    for n in (1, 2, 3):
+        for pos in itertools.combinations(range(0, 9), n):
+            for res in (1, 2, 3):
+                for start in (-4, -1, 0, 2):
+                    for end in (None, 5, 8, 12):
+                        for radius in (0, 1, 2):
+                            cs.append(('pts', (pos, res, start, end, radius)))
     rnd = random.Random(seed)
     for _ in range(500 if tier == 'quick' else 5000):
         n = rnd.randint(1, 25)
